@@ -27,8 +27,34 @@ def oracle(rep, rnd, tier, impl):
          "(list (i 1) (i 2) (i 3))"),
         ("def l = []; do append(l, 1); error 'x'; append(l, 2) catch all append(l, 3) end; l", "(list (i 1) (i 3))"),
         ("def l = []; do do append(l, 1) finally error 'f' end catch 'f' append(l, 2) end; l", "(list (i 1) (i 2))"),
+        # the value of an error raised by evaluated text; an argument whose rendering fails while the stack trace is built
+        ("do eval(\"error 'X'\") catch 'X' 'ok' end", "(s 111 107)"),
+        ("do eval(\"def z = 1; error [z, 2]\") catch [1, 2] 'ok' end", "(s 111 107)"),
+        ("def o = <* _str_ = fn(self) error 'S' *>; def f(x) error 'X'; do f(o) catch 'X' 'ok' end", "(s 111 107)"),
+        ("def o = <* _str_ = fn(self) 1 / 0 *>; def f(x, y) error [1]; do f(1, o) catch [1] 'ok' end", "(s 111 107)"),
+        ("def o = <* _str_ = fn(self) 'OBJ' *>; string(o) + string([o])", "(s 79 66 74 91 79 66 74 93)"),
     ]
+    # every kind of runtime failure (raised by the language, by a native as a host exception of whatever class, by unbounded
+    # recursion) x every nest: the nearest matching handler gets it as 'ERROR', finally parts run once, nothing after the failure runs
+    ERRS = S
+    faults = ["undefined_zz", "1 / 0", "[1, 2][7]", "not 5", "'abc'[9]", "<<<1 => 2>>>[3]", "error 'ERROR'", "length(1)", "matches('abc', '(')", "split('a b', '[')",
+              "def down_zz(n) down_zz(n + 1) + 1; down_zz(0)", "date('x')", "int('q')", "chr(-1)", "sorted([1, 'a', [2]], cmp = 5)", "require no_such_module_zz",
+              "'a' * 2 - []", "delete_at([], 'x')", "s('{undefined_zz}')", "eval('1 +')", "sublist(5, 1)", "[1, 2] !> map_list(5)"]
+    for f in faults:
+        cases += [
+            ("def l = []; def r = do append(l, 1); %s; append(l, 2) catch all 'H' finally append(l, 3) end; [r, l]" % f, "(list (s 72) (list (i 1) (i 3)))"),
+            ("def l = []; def r = do do append(l, 1); %s; append(l, 2) catch 'other' 'wrong' finally append(l, 3) end catch 'ERROR' 'H' finally append(l, 4) end; [r, l]" % f,
+             "(list (s 72) (list (i 1) (i 3) (i 4)))"),
+            ("def l = []; def g() do do append(l, 1); %s; append(l, 2) finally append(l, 3) end; append(l, 9) end; def r = []; for i in [1, 2] do append(r, do g() catch all e_zz 'H' end) end; [r, l]"
+             .replace("catch all e_zz 'H'", "catch all 'H'") % f, "(list (list (s 72) (s 72)) (list (i 1) (i 3) (i 1) (i 3)))"),
+        ]
     n = evalcheck.programs_oracle(rep, impl, cases, "scenario")
+    I0 = impl.new_interpreter(False, False)
+    for f in faults:
+        out = impl.run_src(I0, "def l = []; do %s catch 'nomatch' 1 end" % f)
+        rep.count()
+        if out[:2] != ("err", ERRS):
+            rep.violation("input", "the failure of %s, not matched by any handler, leaves the interpreter as %s (expected the runtime error 'ERROR')" % (f, out[:2]), check="uncaught", value=f)
     # an uncaught error leaves the interpreter as a runtime error carrying the value
     I = impl.new_interpreter(False, False)
     for v, want in (("'x'", "(s 120)"), ("[1, <<2>>]", "(list (i 1) (set (i 2)))"), ("NULL", "null"), ("7", "(i 7)")):
